@@ -11,7 +11,7 @@ use std::str::FromStr;
 
 pub fn lanes() -> Vec<Lane> {
     vec![
-        Lane { name: "relations", count: |c| if c.thorough() { 1_000_000 } else { 60_000 }, run: relations_lane },
+        Lane { name: "relations", count: |c| if c.thorough() { 1_000_000 } else { 200_000 }, run: relations_lane },
         Lane { name: "factorial", count: |_| 2 * 6 * 4 * 4 * 4, run: factorial_lane },
     ]
 }
